@@ -61,7 +61,11 @@ struct G {
   }
 
   void connect_all(bool interleaved, bool subscribe_noc) {
+    // in some plans the bus's unique-name counter jumps (hook H1) so that live unique names are in a prefix relation
+    // (:1.1 and :1.1x) without ten connections: anything that compares names by prefix shows
+    int jump_after = (!interleaved && sh.nclients >= 3 && !p.cfg.count("uniq.minor") && r.pct(15)) ? (int)r.range(2, sh.nclients - 1) : -1;
     for (int i = 0; i < sh.nclients; i++) {
+      if (i == jump_after) add(mk("uniq", -1, {1, (int64_t)((i - 1) * 10 + (int)r.below(10))}));
       unsigned uid = sh.uids.empty() ? 0 : sh.uids[(size_t)i % sh.uids.size()];
       int64_t rxcap = r.pct((unsigned)sh.rxcap_small_pct) ? r.range(64, 4096) : 0;
       add(mk("connect", i, {(int64_t)uid, (int64_t)uid, 1000 + i, 0, rxcap}));
@@ -703,6 +707,14 @@ Plan gen_c09(uint64_t seed, bool th) {
   if (g.r.pct(40)) g.p.cfg["lim.replies"] = std::to_string(g.r.range(1, 3));
   bool timed = g.r.pct(50);
   if (timed) g.p.cfg["lim.reply_timeout"] = std::to_string(g.r.range(20, 3000));
+  bool full_queues = g.r.pct(20);
+  if (full_queues) {
+    // a small max_outgoing_bytes with callees that stall behind small socket buffers: a call refused because the
+    // callee's queue is full is answered by the bus (LimitsExceeded) and must leave no reply slot behind
+    g.p.cfg["lim.out_bytes"] = std::to_string(g.r.range(100, 2500));
+    g.sh.rxcap_small_pct = 70;
+    g.sh.lazy_drain = true;
+  }
   g.connect_all(false, g.r.pct(30));
   int nops = (int)g.r.range(8, th ? 70 : 30);
   std::vector<int64_t> used_serials;
@@ -731,6 +743,8 @@ Plan gen_c09(uint64_t seed, bool th) {
       g.add(g.mk("close", c));
     } else if (x < 93 && timed) {
       g.add(g.mk("adv", -1, {(int64_t)g.r.range(5, 2500)}));
+    } else if (x < 93 && full_queues) {
+      g.add(g.mk("stall", c, {g.r.pct(60) ? 1 : 0}));
     } else if (x < 96) {
       g.add(g.mk("reqname", c, {(int64_t)g.r.below(8), -1}, {g.a_name()}));
     } else {
